@@ -133,6 +133,9 @@ type c20Case struct {
 	Split    int    `json:"split"`                         // >0: header block cut into HEADERS+CONTINUATION at this offset
 	PadData  int    `json:"pad_data"`                      // >0: DATA sent with this much padding (stored +1; 0 = none)
 	CLPadded bool   `json:"content_length_counts_padding"` // content-length = DATA payload size incl. padding (malformed)
+	// Repeat: the request under test is sent twice on the connection with a stateful HPACK encoder: first its fields
+	// are literals with incremental indexing, the second time references to the entries the first one inserted
+	Repeat bool `json:"repeat_with_dynamic_table,omitempty"`
 }
 
 func c20Fields(cs c20Case, id uint32) (fields []ref.Field, names []string) {
@@ -171,7 +174,10 @@ func sendPlain(h *harness.Server, id uint32, fields []ref.Field, body []byte, tr
 }
 
 func sendPlainX(h *harness.Server, id uint32, fields []ref.Field, body []byte, trailers []ref.Field, split, pad int) {
-	blk := staticBlock(fields)
+	sendBlockX(h, id, staticBlock(fields), body, trailers, split, pad)
+}
+
+func sendBlockX(h *harness.Server, id uint32, blk []byte, body []byte, trailers []ref.Field, split, pad int) {
 	hasMore := len(body) > 0 || trailers != nil
 	if split > 0 && split <= len(blk) {
 		h.SendFrames(peer.Headers(id, blk[:split], peer.HeadersOpt{EndStream: !hasMore, Pad: -1}))
@@ -211,67 +217,88 @@ func c20Run(cs c20Case) (*fw.Violation, *harness.Server) {
 			id += 2
 			continue
 		}
-		xid = id
-		fields, names := c20Fields(cs, id)
-		xNames = strings.Join(names, "+")
-		body := []byte(valOfLen(cs.BodyLen))
-		var trailers []ref.Field
-		switch cs.Trailers {
-		case "valid":
-			trailers = []ref.Field{{Name: "x-trailer", Value: "t"}}
-		case "pseudo":
-			trailers = []ref.Field{{Name: ":path", Value: "/t"}, {Name: "x-trailer", Value: "t"}}
+		reps := 1
+		if cs.Repeat {
+			reps = 2
 		}
-		pad := cs.PadData - 1
-		if cs.CLPadded && pad >= 0 && len(body) > 0 {
-			fields = append(fields, ref.Field{Name: "content-length", Value: fmt.Sprint(len(body) + pad + 1)})
-			xNames += "+content-length counts padding"
-		}
-		verdict = ref.RequestWellFormed(fields, len(body), trailers)
-		calls := len(h.Calls)
-		from := len(h.Out)
-		sendPlainX(h, id, fields, body, trailers, cs.Split, pad)
-		dispatched := len(h.Calls) > calls
-		shape := xNames
-		if shape == "" {
-			shape = "base"
-		}
-		shape += fmt.Sprintf(" body=%d trailers=%s", cs.BodyLen, cs.Trailers)
-		if cs.Split > 0 {
-			shape += " continuation"
-		}
-		if pad >= 0 {
-			shape += " padded-data"
-		}
-		if len(h.GoAways) > 0 || h.C.Closed() {
-			return mk("whole-connection-refused", orWF(verdict)+" -> "+reactionClass(h.Reaction(from)), fmt.Sprintf("request on stream %d (%s; RFC 7540 8.1.2 verdict: %s) ended the connection: %s", id, xNames, orWF(verdict), h.Reaction(from))), h
-		}
-		if verdict == "" {
-			if !dispatched || len(h.Calls) != calls+1 {
-				return mk("wellformed-request-refused", xNames+fmt.Sprintf(" trailers=%s", cs.Trailers)+" -> "+reactionClass(h.Reaction(from)), fmt.Sprintf("well-formed request (%s) on stream %d was not dispatched exactly once; reaction %s", xNames, id, h.Reaction(from))), h
+		for rep := 0; rep < reps; rep++ {
+			xid = id
+			fields, names := c20Fields(cs, id)
+			xNames = strings.Join(names, "+")
+			body := []byte(valOfLen(cs.BodyLen))
+			var trailers []ref.Field
+			switch cs.Trailers {
+			case "valid":
+				trailers = []ref.Field{{Name: "x-trailer", Value: "t"}}
+			case "pseudo":
+				trailers = []ref.Field{{Name: ":path", Value: "/t"}, {Name: "x-trailer", Value: "t"}}
 			}
-			want := harness.WantReq{ID: id, Fields: fields, Body: body, Trailers: trailers}
-			if d, cls := harness.CheckRequest(want, h.Calls[calls].Req); d != "" {
-				return mk("wellformed-request-not-intact", cls+" "+shape, d), h
+			pad := cs.PadData - 1
+			if cs.CLPadded && pad >= 0 && len(body) > 0 {
+				fields = append(fields, ref.Field{Name: "content-length", Value: fmt.Sprint(len(body) + pad + 1)})
+				xNames += "+content-length counts padding"
 			}
-			h.Finish(calls, harness.Resp{Status: 200})
-		} else {
-			if dispatched {
-				return mk("malformed-request-dispatched", verdict, fmt.Sprintf("malformed request (%s: %s) on stream %d reached the handler: %+v", verdict, xNames, id, h.Calls[calls].Req)), h
+			verdict = ref.RequestWellFormed(fields, len(body), trailers)
+			calls := len(h.Calls)
+			from := len(h.Out)
+			if cs.Repeat {
+				var choice func(int) ref.EncChoice
+			if rep == 1 {
+				// whatever the first copy inserted is now referred to by index
+				choice = func(int) ref.EncChoice { return ref.EncChoice{Rep: ref.RepIndexed, NameIndex: true} }
 			}
-			so := h.Streams[id]
-			ok := false
-			if so != nil && len(so.Rst) == 1 && so.Rst[0] == cPROTOCOL {
-				ok = true
+			sendBlockX(h, id, h.PeerEnc.Block(fields, choice), body, trailers, cs.Split, pad)
+			} else {
+				sendPlainX(h, id, fields, body, trailers, cs.Split, pad)
 			}
-			if so != nil && len(so.HeaderBlocks) == 1 && strings.HasPrefix(harness.Status(so.HeaderBlocks[0]), "4") {
-				ok = true
+			dispatched := len(h.Calls) > calls
+			shape := xNames
+			if shape == "" {
+				shape = "base"
 			}
-			if !ok {
-				return mk("malformed-request-not-refused", verdict+" -> "+reactionClass(h.Reaction(from)), fmt.Sprintf("malformed request (%s: %s) on stream %d: expected RST_STREAM(PROTOCOL_ERROR) or a 4xx on that stream, got %s", verdict, xNames, id, h.Reaction(from))), h
+			shape += fmt.Sprintf(" body=%d trailers=%s", cs.BodyLen, cs.Trailers)
+			if cs.Split > 0 {
+				shape += " continuation"
 			}
+			if pad >= 0 {
+				shape += " padded-data"
+			}
+			if rep == 1 {
+				shape += " repeated-as-table-references"
+			}
+			if len(h.GoAways) > 0 || h.C.Closed() {
+				return mk("whole-connection-refused", orWF(verdict)+" -> "+reactionClass(h.Reaction(from)), fmt.Sprintf("request on stream %d (%s; RFC 7540 8.1.2 verdict: %s) ended the connection: %s", id, xNames, orWF(verdict), h.Reaction(from))), h
+			}
+			if verdict == "" {
+				if !dispatched || len(h.Calls) != calls+1 {
+					return mk("wellformed-request-refused", xNames+fmt.Sprintf(" trailers=%s", cs.Trailers)+" -> "+reactionClass(h.Reaction(from)), fmt.Sprintf("well-formed request (%s) on stream %d was not dispatched exactly once; reaction %s", xNames, id, h.Reaction(from))), h
+				}
+				want := harness.WantReq{ID: id, Fields: fields, Body: body, Trailers: trailers}
+				if d, cls := harness.CheckRequest(want, h.Calls[calls].Req); d != "" {
+					return mk("wellformed-request-not-intact", cls+" "+shape, d), h
+				}
+				h.Finish(calls, harness.Resp{Status: 200})
+			} else {
+				if dispatched {
+					if rep == 1 {
+						verdict += " (fields sent as references to dynamic-table entries)"
+					}
+					return mk("malformed-request-dispatched", verdict, fmt.Sprintf("malformed request (%s: %s) on stream %d reached the handler: %+v", verdict, xNames, id, h.Calls[calls].Req)), h
+				}
+				so := h.Streams[id]
+				ok := false
+				if so != nil && len(so.Rst) == 1 && so.Rst[0] == cPROTOCOL {
+					ok = true
+				}
+				if so != nil && len(so.HeaderBlocks) == 1 && strings.HasPrefix(harness.Status(so.HeaderBlocks[0]), "4") {
+					ok = true
+				}
+				if !ok {
+					return mk("malformed-request-not-refused", verdict+" -> "+reactionClass(h.Reaction(from)), fmt.Sprintf("malformed request (%s: %s) on stream %d: expected RST_STREAM(PROTOCOL_ERROR) or a 4xx on that stream, got %s", verdict, xNames, id, h.Reaction(from))), h
+				}
+			}
+			id += 2
 		}
-		id += 2
 	}
 	_ = xid
 	if p := h.Panicked(); len(p) > 0 {
@@ -385,6 +412,22 @@ func runC20(c *fw.Ctx) {
 		}
 	}
 	c.Family("server-fragmented")
+	// every list again, sent twice with a stateful encoder: literals first, then references to what they inserted
+	for _, sub := range subsets {
+		for _, bl := range []int{0, 5} {
+			if c.Expired("C20 repeated") {
+				break
+			}
+			one(c20Case{Items: sub, BodyLen: bl, Trailers: "none", Pos: 1, Repeat: true})
+		}
+	}
+	// ... and single items with the (short) second block cut at every offset, so that each reference opens a fragment
+	for it := 0; it < len(c20Items); it++ {
+		for off := 1; off <= 24; off++ {
+			one(c20Case{Items: []int{it}, BodyLen: 0, Trailers: "none", Pos: 1, Repeat: true, Split: off})
+		}
+	}
+	c.Family("server-repeated-with-dynamic-table")
 	runC20Client(c)
 }
 
